@@ -1,4 +1,4 @@
-SPECIFICATION Spec
+SPECIFICATION ExportSpec
 CONSTANTS
   Callers = {"c0", "c1"}
   Programs <- ProgsTtl
@@ -9,6 +9,7 @@ CONSTANTS
   EstOf <- EstZero
   WithConsumer = FALSE
   WithSweeper = TRUE
-  KeepHist = FALSE
-INVARIANT NotD4
+  KeepHist = TRUE
 CHECK_DEADLOCK FALSE
+INVARIANT ExportScenario
+INVARIANT ExportBehaviour
